@@ -108,11 +108,12 @@ def compare_compiled(base, obs, ref_err=''):
             return 'compiled program stopped abnormally for another reason: %s' % C.clip(obs.proc.errs(), 300)
         from .progcheck import split_diag
         bp = split_diag(base.err, ref_err)[0]
-        if not base.out.startswith(obs.out):
-            return 'stdout before the abnormal stop is not a prefix of the interpreter text'
+        # C03 (unlike C02) does not allow text written before the stop to be withheld: same stdout, same stderr text
+        if obs.out != base.out:
+            return 'stdout before the abnormal stop differs from the interpreter text (%d vs %d characters)' % (len(obs.out), len(base.out))
         cand = obs.err
-        if not (bp.startswith(cand) or (cand.endswith('\n') and bp.startswith(cand[:-1]))):
-            return 'stderr before the abnormal stop is not a prefix of the interpreter text'
+        if not (cand == bp or (cand.endswith('\n') and cand[:-1] == bp)):
+            return 'stderr text before the abnormal stop differs from the interpreter text'
         return None
     if obs.kind != base.kind:
         return 'ending: interpreter %s (rc=%s), compiled program %s (rc=%s) %s' % (
